@@ -8,7 +8,7 @@ ALT=/tmp/alt/$TAG
 rm -rf "$ALT"; mkdir -p "$ALT"
 cp -r /repo "$ALT/repo"
 ( cd "$ALT/repo" && git apply "$PATCH" ) || { echo "PATCH-DOES-NOT-APPLY $TAG"; rm -rf "$ALT"; exit 3; }
-rsync -a --exclude .git --exclude replays /verif/ "$ALT/verif/"
+rsync -a --exclude .git --exclude replays "${VERIF_SRC:-/verif}/" "$ALT/verif/"
 export VERIF_REPO="$ALT/repo" GOFLAGS=-mod=mod GOPROXY=off GOSUMDB=off GOTOOLCHAIN=local
 ( cd "$ALT/repo" && go build ./... ) || { echo "MUTANT-DOES-NOT-BUILD $TAG"; rm -rf "$ALT"; exit 3; }
 for P in "$@"; do
